@@ -98,6 +98,9 @@ class LoopMixin:
             return self.dict_keys_seq(st, v), None, ("keys", v)
         if v.k == "zip":
             return None, None, ("zip", v.x)
+        if v.k == "obj" and v.h in ("LineStream",):
+            self.assumptions.add("iterating a binary input stream yields an arbitrary finite sequence of bytes lines")
+            return self.fresh("lines", SeqV), "bytes", None
         raise Unsupported("iteration over " + v.k)
 
     def dict_keys_seq(self, st, d):
@@ -305,6 +308,13 @@ class LoopMixin:
         else:
             n = z3.Length(sq)
         sqv = SV("seq", sq, h=hint) if sq is not None else SV("none")
+        # ghost bindings at loop entry (e.g. remembering the enumeration that is being iterated)
+        for gname, gsrc in spec.get("ghost_init", []):
+            saved_s = st.frames[st.fid].get("_s")
+            st.frames[st.fid]["_s"] = sqv
+            st.frames[st.fid][gname] = self.spec_value(st, gsrc, st.fid, st.heap0, st.entry_frame, {})
+            if saved_s is None:
+                st.frames[st.fid].pop("_s", None)
         # 1. invariant holds initially
         empty_done = SV("seq", z3.Empty(SeqV), h=hint)
         self.inv_eval(st, spec, {"_i": SV("int", z3.IntVal(0)), "_s": sqv, "_done": empty_done}, tag + ":init", True)
